@@ -219,6 +219,35 @@ def direct_oracle(g, seed, rs=None):
                              "(a query left evaluation mode, so dropout is active and outputs are no longer normalised densities)",
                         still_in_evaluation_mode=bool(still_eval), all_missing_before=n0.tolist(), all_missing_after=n1.tolist(),
                         complete_before=a0.tolist(), complete_after=a1.tolist())
+        # (1d) parameters replaced on a used model in evaluation mode (load_state_dict / in-place copy / one bounded optimiser
+        #      step) with no further .eval()/.train() call: normalisation is a property of the weights the model holds NOW
+        import copy as _copy
+        mh = make_model(g, seed + 3); donor = make_model(g, seed + 5)
+        xn1 = torch.full((1, C_, D, D), float("nan"))
+        with torch.no_grad():
+            mh(xn1); mh(xc)
+        mh.mpe(xh.clone())
+        how = ["load_state_dict", "in-place copy", "optimiser step"][seed % 3]
+        if how == "load_state_dict":
+            mh.load_state_dict(_copy.deepcopy(donor.state_dict()))
+        elif how == "in-place copy":
+            with torch.no_grad():
+                for (_, a_), (_, b_) in zip(mh.named_parameters(), donor.named_parameters()):
+                    a_.copy_(b_)
+        else:
+            opt = torch.optim.SGD([q for q in mh.parameters() if q.requires_grad], lr=0.3)
+            opt.zero_grad(); (-mh(xc).sum()).backward()
+            gmax = max([float(q.grad.abs().max()) for q in mh.parameters() if q.grad is not None] + [1e-12])
+            for q in mh.parameters():
+                if q.grad is not None:
+                    q.grad.div_(gmax)
+            opt.step()
+        twin = make_model(g, seed + 9); twin.load_state_dict(_copy.deepcopy(mh.state_dict())); twin.eval()
+        with torch.no_grad():
+            h0 = mh(xn1).double().numpy(); h1 = mh(xc).double().numpy(); t1 = twin(xc).double().numpy()
+        if not np.all(np.abs(h0) <= 1e-4) or not np.allclose(h1, t1, rtol=1e-5, atol=1e-5):
+            return dict(what=f"history eval(); queries; {how}; query: outputs are not those of the parameters the model now holds",
+                        all_missing_log_prob=h0.tolist(), complete_input=h1.tolist(), fresh_model_with_the_same_state_dict=t1.tolist())
         # (2) fully missing input has log-probability zero
         xn = torch.full((2, C_, D, D), float("nan"))
         lp = m(xn).detach().double().numpy()
